@@ -9,6 +9,7 @@ pub mod c06;
 pub mod c07;
 pub mod c11;
 pub mod c12;
+pub mod c19;
 pub mod c20;
 pub mod eqfam;
 pub mod jcsfam;
@@ -36,6 +37,7 @@ pub fn run(id: &str, cfg: &Config) -> i32 {
 		"C16" => serdefam::run_c16(cfg),
 		"C17" => serdefam::run_c17(cfg),
 		"C18" => serdefam::run_c18(cfg),
+		"C19" => c19::run(cfg),
 		"C20" => c20::run(cfg),
 		_ => {
 			println!("INCONCLUSIVE property={} no such check", id);
@@ -79,6 +81,7 @@ pub fn replay(id: &str, cfg: &Config, path: &Path) -> i32 {
 		("C04" | "C08" | "C13", _) => printfam::replay_case(id, &case),
 		("C09" | "C10", _) => jcsfam::replay_case(id, &case),
 		("C11", _) => c11::replay_case(&case),
+		("C19", _) => c19::replay_case(cfg, &case),
 		("C16" | "C17" | "C18", _) => serdefam::replay_case(id, &case),
 		("C14" | "C15", _) => eqfam::replay_case(id, &case),
 		("C20", _) => Some(if c20::run(cfg) == 0 { vec![] } else { vec!["C20 enumeration fails".to_string()] }),
